@@ -18,7 +18,32 @@ KfAsciiHayCodepointNeedle(r, x) ==
   /\ x[1] \in {"C01", "C04", "C05"}
   /\ b.rh = "A" /\ b.rn = "U" /\ AllNone(b)
 
+\* KF-C04-prefix-bonus-tips-matrix: the matrix keeps one best predecessor per cell although the consecutive
+\* bonus depends on how the chunk started, so the plain run can report less than an alignment it has seen
+\* (C04 allows that).  With prefer_prefix the bonus of an alignment starting at the very beginning can make
+\* that better alignment survive the per-cell choice; the reported score then exceeds the plain run's by
+\* more than the prefix bonus although it exceeds ITS OWN plain score (the documented scoring scheme applied
+\* to the indices it reports, C03) by at most the bonus.  Signature: the run with the preference reports
+\* other indices than the plain run, those indices' plain score is above the plain run's score, and the
+\* reported score is within the bonus of that plain score.
+KfPrefixBonusTipsMatrix(r, x) ==
+  /\ x[1] = "C04" /\ x[2] = "prefer_prefix_bounds"
+  /\ LET half == Len(r.blocks) \div 2
+         rs(k) == IF r.blocks[k].same = 0 THEN r.blocks[k] ELSE r.blocks[r.blocks[k].same]
+         off == rs(x[3] - half).outs[1]
+         on == rs(x[3]).outs[1]
+         pre == r.pre
+         idx(o) == [k \in 1..(Len(o[2]) - Len(pre)) |-> o[2][Len(pre) + k] + 1]
+         K == ClassSeq(r.hay, r.paths)
+         plain == Clamp16(AlignScore(K, idx(on), r.paths)) IN
+     /\ off[1] >= 0 /\ on[1] > off[1] + MaxPrefixBonus
+     /\ Len(on[2]) = Len(pre) + Len(r.needle) /\ Len(off[2]) = Len(on[2])
+     /\ idx(on) # idx(off)
+     /\ plain > off[1]
+     /\ on[1] >= plain /\ on[1] <= plain + MaxPrefixBonus
+
 KnownId(r, x) ==
   IF KfAsciiHayCodepointNeedle(r, x) THEN "KF-C01-ascii-hay-codepoint-needle"
+  ELSE IF KfPrefixBonusTipsMatrix(r, x) THEN "KF-C04-prefix-bonus-tips-matrix"
   ELSE ""
 =============================================================================
